@@ -308,6 +308,18 @@ def judge_run(ctx, case, mode):
                     if os.path.lexists(p) and (not inside or os.path.relpath(p, d) not in allowed_new):
                         fbad.append(("audit_write_open", ev[1]))
                 elif ev[0] in ("os.remove", "os.rename", "os.truncate", "os.rmdir", "shutil.rmtree"):
+                    # an implementation may write a temporary file of ITS OWN making and move it onto the new target, or delete
+                    # it again (atomic export): harmless.  What counts is a path that existed BEFORE the run.
+                    src = os.path.realpath(ev[1] if os.path.isabs(ev[1]) else os.path.join(d, ev[1]))
+                    src_in = src.startswith(os.path.realpath(d) + os.sep)
+                    own_temp = src_in and os.path.relpath(src, d) not in before
+                    if ev[0] == "os.rename" and len(ev) > 2:
+                        dst = os.path.realpath(ev[2] if os.path.isabs(ev[2]) else os.path.join(d, ev[2]))
+                        dst_ok = dst.startswith(os.path.realpath(d) + os.sep) and (os.path.relpath(dst, d) in allowed_new or os.path.relpath(dst, d) not in before)
+                        if own_temp and dst_ok:
+                            continue
+                    elif ev[0] == "os.remove" and own_temp:
+                        continue
                     fbad.append(("audit_effect", ev))
         if res.get("strace_writes"):
             # transient temp files made by the interpreter / dependency loading (e.g. ctypes.util.find_library running gcc while
